@@ -220,6 +220,7 @@ def check_ctor(s, cls):
 
 
 def check(s):
+    P8 = s.prog
     sh = {}
     for cls, meth, kind in (("PPO", "ppo_loss", "ppo"), ("A2C", "a2c_loss", "a2c"), ("REINFORCE", "reinforce_loss", "reinforce")):
         r = check_loss(s, cls, meth, kind)
@@ -253,13 +254,44 @@ def check(s):
         s.eq("C08.8", o["con"], o["nz"], o["row"].get("log_probs", NONE), o["ref"]["logp"],
              "the stored log-probability is the log-prob item of the same action_and_value call that produced the stored action", o["loc"], key="ratio-logprob-source",
              necessary_for="on data collected by the current policy every ratio is 1 and the approximate KL is 0")
+        s.eq("C08.8", o["con"], o["nz"], o["row"].get("states", NONE), s.ref(o["b"], "state.policy_state", {"state": ("param", "state")}),
+             "the stored policy state the loss re-evaluates under is the state the action was sampled from (the incoming one)", o["loc"], key="ratio-state-source",
+             necessary_for="on data collected by the current policy every ratio is 1 (also for policies with internal state)")
         s.ob("C08.8", o["con"], o["policy_calls"] == 1, "one action_and_value call (one key) feeds the stored action, log-prob and value", o["loc"], key="ratio-one-policy-call",
              detail=f"{o['policy_calls']} calls", necessary_for="the stored log-probability belongs to the stored sample, not to a second draw")
         s.eq("C08.8", o["con"], o["nz"], o["row"].get("values", NONE), o["ref"]["value"],
              "the stored value (centre of the PPO2 value clip) is the value item of that same call", o["loc"], key="old-value-source")
+    # ---------------------------------------------------------------- C08.10 the entropy the losses weight is the joint entropy
+    # The losses average `entropy` over the batch only if it is one number per sample. Distributions made of independent components
+    # (a Bernoulli per bit, an element-wise Normal) report entropy per component; evaluate_action therefore has to reduce it over
+    # the components with the same reduction it applies to log_prob (a sum), otherwise the entropy term is H/k.
+    for ci_ in [c for c in P8.subclasses("AbstractActorCriticPolicy") if "evaluate_action" in c.methods and not c.is_abstractmethod("evaluate_action")]:
+        be = s.builder(inline=set())
+        loce = s.loc(ci_.name, "evaluate_action")
+        for pe in live(s.paths(be, ci_.name, "evaluate_action")):
+            r_ = pe.ret
+            ok_t = isinstance(r_, tuple) and r_[0] == "tuple" and len(r_[1]) == 4
+            s.ob("C08.10", f"{ci_.name}.evaluate_action", ok_t, "evaluate_action returns (state, value, log_prob, entropy)", loce, key="evaluate-shape", detail=show(r_, maxlen=160))
+            if not ok_t:
+                continue
+
+            def summed(n, what):
+                """is `n` a sum (no axis) over the result of <dist>.<what>(...)?"""
+                for c in walk(n):
+                    if isinstance(c, tuple) and c and c[0] == "call" and not c[3] and ((isinstance(c[1], tuple) and c[1][0] == "attr" and c[1][2] == "sum" and not c[2])
+                                                                                      or (c[1] == ("global", "jax.numpy.sum") and len(c[2]) == 1)):
+                        inner = c[1][1] if c[1][0] == "attr" else c[2][0]
+                        if any(isinstance(x, tuple) and x and x[0] == "call" and isinstance(x[1], tuple) and x[1][0] == "attr" and x[1][2] == what for x in walk(inner)):
+                            return True
+                return False
+
+            s.ob("C08.10", f"{ci_.name}.evaluate_action", summed(r_[1][2], "log_prob"), "the log-probability is summed over the action components", loce, key="logprob-summed",
+                 detail=show(r_[1][2], maxlen=160))
+            s.ob("C08.10", f"{ci_.name}.evaluate_action", summed(r_[1][3], "entropy"), "the entropy is summed over the action components (one number per sample, like log_prob)", loce,
+                 key="entropy-summed", detail=show(r_[1][3], maxlen=160), necessary_for="the weighted negative entropy term is the entropy of the action distribution, for every action space kind")
     # C08.9 configuration wiring of the learners: each coefficient / flag given to the constructor is the like-named attribute the loss reads
     from .util import ctor_wiring
     for cls in ("PPO", "A2C", "REINFORCE"):
         ctor_wiring(s, "C08.9", cls, necessary_for="the objective is evaluated with the configured clip range, coefficients and flags")
-    for r, n in (("C08.1", 8), ("C08.3", 4), ("C08.4", 12), ("C08.5", 20), ("C08.6", 30), ("C08.7", 40), ("C08.8", 8), ("C08.9", 20)):
+    for r, n in (("C08.1", 8), ("C08.3", 4), ("C08.4", 12), ("C08.5", 20), ("C08.6", 30), ("C08.7", 40), ("C08.8", 10), ("C08.9", 20), ("C08.10", 3)):
         s.floor(r, n)
